@@ -155,6 +155,28 @@ def r03_2_3(rep: Report) -> None:
         rep.fail('R03.3', c2, "skip only under has_bug('saio')",
                  'the saio rewrite can be skipped on a path that does not test the `saio` bug option',
                  stale[0])
+    # every early exit of the two fix-up passes is one of the listed "nothing to fix" cases
+    allowed = {
+        c2: {"self.offsets is not None and len(self.offsets) != 1": 'several offsets: not the single-run form',
+             "senc is None": 'no senc box to address',
+             "self.options.has_bug('saio')": 'the requested bug-compatibility deviation'},
+        c: {"moof is None": 'trun outside a moof (init segment parsing)',
+            "mdat is None": 'no mdat to address'},
+    }
+    for cons, fnode in ((c2, pe2), (c, pe)):
+        bad = []
+        for r in ast.walk(fnode):
+            if isinstance(r, ast.Return):
+                par = getattr(r, '_parent', None)
+                if not (isinstance(par, ast.If) and r in par.body and norm(par.test) in allowed[cons]):
+                    bad.append((r, norm(par.test) if isinstance(par, ast.If) else type(par).__name__))
+        if bad:
+            for r, why in bad:
+                rep.fail('R03.3', cons, 'early exits of the fix-up pass',
+                         f'the offset fix-up returns early under `{why[:100]}`, which is not one of the '
+                         f'"nothing to fix" cases {sorted(allowed[cons])}: a stale offset is served', r)
+        else:
+            rep.ok('R03.3', cons, 'early exits of the fix-up pass', '; '.join(allowed[cons]))
     # has_bug reads the bug-compatibility list
     opt = need(find_class(tree, 'Options'), 'mp4.Options')
     hb = need(find_func(opt, 'has_bug'), 'Options.has_bug')
@@ -358,7 +380,7 @@ def analyse(rep: Report) -> None:
         'the resets before encode. Byte identity of mdat and the numerical offsets are not decided.')
     rep.rule('R03.1', 'layouts of the boxes rewritten in a segment agree', floor=12)
     rep.rule('R03.2', 'offset fields are recomputed from final positions and rewritten in place', floor=8)
-    rep.rule('R03.3', 'saio rewrite skipped only under the saio bug option', floor=2)
+    rep.rule('R03.3', 'saio rewrite skipped only under the saio bug option', floor=4)
     rep.rule('R03.4', 'nothing writes to the encoded segment except the guarded corruption hook', floor=2)
     rep.rule('R03.5', 'box insertions reach the offset resets before encode', floor=6)
     rep.rule('R04.3', 'edit API invalidates cached encodings; two-pass encode order (shared with C04)',
